@@ -46,17 +46,18 @@ Lemma tstep_ready v c n t :
   next_owns (snd (tstep v c n t)) = true \/ (n_st n = Ready /\ owns_ready t = false).
 Proof.
   destruct n as [st e p ps k cnt d].
-  destruct t; cbn -[wins tracked track_update if_delta adjust_priority];
+  destruct t; cbn -[wins tracked track_update if_delta adjust_priority adjust_or_skip];
     unfold peer_discovered, elect, hb_update, peer_lost, tracker_promote, transition_to;
-    cbn -[wins tracked track_update if_delta adjust_priority].
-  all: try (destruct st; cbn -[wins tracked track_update if_delta adjust_priority]; split_ifs;
-            cbn -[wins tracked track_update if_delta adjust_priority]; intros H;
+    cbn -[wins tracked track_update if_delta adjust_priority adjust_or_skip].
+  all: try (destruct st; cbn -[wins tracked track_update if_delta adjust_priority adjust_or_skip]; split_ifs;
+            cbn -[wins tracked track_update if_delta adjust_priority adjust_or_skip]; intros H;
             first [ discriminate H | left; reflexivity | right; split; reflexivity ]).
   (* TIf0: the node after track_update keeps its state *)
   - destruct (tracked c k0); cbn [negb].
     2:{ cbn. intros H. right. split; [exact H | reflexivity]. }
     destruct (track_update_st v (mkNode st e p ps k cnt d) k0 d0) as [Hs _]. cbn [n_st] in Hs.
-    destruct (fix_ia v); cbn; rewrite Hs; intros H; right; split; auto.
+    destruct (fix_ia v || _); cbn -[adjust_or_skip track_update];
+      rewrite ?(proj1 (adjust_or_skip_frame _ _ _ _)), ?Hs; intros H; right; split; auto.
 Qed.
 
 Lemma existsb_split {X} (P : X -> bool) l j x :
@@ -177,17 +178,17 @@ Lemma tstep_promotion v c n t :
   | _ => False
   end.
 Proof.
-  destruct n as [st e p ps k cnt d], v as [fh fi ff fs fa], c as [id pr pre dec nifs ov].
-  destruct t; cbn -[wins tracked track_update if_delta adjust_priority];
+  destruct n as [st e p ps k cnt d], v as [fh fi ff fs fa], c as [id pr pre dec nifs ov co].
+  destruct t; cbn -[wins tracked track_update if_delta adjust_priority adjust_or_skip];
     unfold peer_discovered, elect, hb_update, peer_lost, tracker_promote, transition_to, set_peer;
-    cbn -[wins tracked track_update if_delta adjust_priority].
-  all: try (destruct st; cbn -[wins tracked track_update if_delta adjust_priority]; try discriminate;
+    cbn -[wins tracked track_update if_delta adjust_priority adjust_or_skip].
+  all: try (destruct st; cbn -[wins tracked track_update if_delta adjust_priority adjust_or_skip]; try discriminate;
             try (destruct m as [mid mst mp mreq]; destruct mst, pre, fh, ff);
-            cbn -[wins tracked track_update if_delta adjust_priority];
+            cbn -[wins tracked track_update if_delta adjust_priority adjust_or_skip];
             repeat match goal with
                    | |- context [if ?b then _ else _] => destruct b eqn:?
                    end;
-            cbn -[wins tracked track_update if_delta adjust_priority]; intros H1 H2;
+            cbn -[wins tracked track_update if_delta adjust_priority adjust_or_skip]; intros H1 H2;
             first [ discriminate H1 | discriminate H2 | solve [auto 6] ]).
   all: try (cbn; intros H1 H2; congruence).
   - (* TIf0 *)
@@ -195,7 +196,9 @@ Proof.
     2:{ cbn. intros H1 H2. congruence. }
     match goal with |- context [track_update ?v ?n ?a ?b] =>
       destruct (track_update_st v n a b) as [Hs _] end. cbn [n_st] in Hs.
-    destruct fa; cbn; rewrite Hs; intros H1 H2; congruence.
+    match goal with |- context [if ?b then _ else _] => destruct b end;
+      cbn -[adjust_or_skip track_update];
+      rewrite ?(proj1 (adjust_or_skip_frame _ _ _ _)), ?Hs; intros H1 H2; congruence.
 Qed.
 
 (* where the promoting threads come from *)
@@ -211,11 +214,11 @@ Lemma thr_provenance v c n t :
 Proof.
   destruct n as [st e p ps k cnt d].
   destruct t; destruct st;
-    cbn -[tracked track_update if_delta adjust_priority wins];
+    cbn -[tracked track_update if_delta adjust_priority adjust_or_skip wins];
     unfold peer_discovered, elect, hb_update, peer_lost, tracker_promote, transition_to;
-    cbn -[tracked track_update if_delta adjust_priority wins];
+    cbn -[tracked track_update if_delta adjust_priority adjust_or_skip wins];
     repeat match goal with |- context [if ?b then _ else _] => destruct b eqn:? end;
-    cbn -[tracked track_update if_delta adjust_priority wins];
+    cbn -[tracked track_update if_delta adjust_priority adjust_or_skip wins];
     repeat match goal with
            | H : (0 <? _) = true |- _ => apply Z.ltb_lt in H
            | H : negb _ = false |- _ => apply Bool.negb_false_iff in H
@@ -234,6 +237,17 @@ Definition not_adj (t : thr) : bool := match t with TIfAdj _ _ => false | _ => t
 Lemma adjust_eff_ok c n : eff_ok c (adjust_priority c n (if_delta c n)).
 Proof. reflexivity. Qed.
 
+Lemma track_update_eff v n k d : n_eff (track_update v n k d) = n_eff n.
+Proof. unfold track_update. destruct (fix_if v), (Bool.eqb d (mem_nat k (n_down n))), d, (0 <? n_cnt n); reflexivity. Qed.
+
+Lemma adjust_or_skip_eff_ok c n0 n1 :
+  eff_ok c n0 -> n_eff n1 = n_eff n0 -> eff_ok c (adjust_or_skip c n0 n1 (if_delta c n1)).
+Proof.
+  intros H He. unfold adjust_or_skip. destruct (c_coalesce c && (n_cnt n1 =? n_cnt n0)) eqn:Q.
+  - apply andb_prop in Q. destruct Q as [_ Q]. apply Z.eqb_eq in Q. unfold eff_ok in *. now rewrite He, Q.
+  - apply adjust_eff_ok.
+Qed.
+
 Lemma same_track_eff_ok c n n' : same_track n n' -> eff_ok c n -> eff_ok c n'.
 Proof. intros (He & Hc & _) H. unfold eff_ok in *. now rewrite He, Hc. Qed.
 
@@ -249,9 +263,9 @@ Proof.
             repeat match goal with |- context [if ?b then _ else _] => destruct b end;
             cbn -[wins eff_code]; auto; fail).
   (* TIf0 *)
-  cbn -[eff_code tracked track_update if_delta adjust_priority]. rewrite Hf.
-  destruct (tracked c k); cbn [negb]; cbn -[eff_code track_update if_delta adjust_priority].
-  - split; [apply adjust_eff_ok | destruct d; exact I || reflexivity].
+  cbn -[eff_code tracked track_update if_delta adjust_priority adjust_or_skip]. rewrite Hf.
+  destruct (tracked c k); cbn [negb orb]; cbn -[eff_code track_update if_delta adjust_priority adjust_or_skip].
+  - split; [apply adjust_or_skip_eff_ok; [exact H | apply track_update_eff] | destruct d; exact I || reflexivity].
   - auto.
 Qed.
 
@@ -265,7 +279,12 @@ Proof.
   - eapply same_track_eff_ok; [apply peer_lost_facts | exact H].
   - destruct (if_facts v (cfg_of w cs) (node_of w p) k d) as (_ & _ & Hun & Htr). cbn zeta in *.
     destruct (tracked (cfg_of w cs) k) eqn:T.
-    + destruct (Htr eq_refl) as (Hc & _ & He). unfold eff_ok. rewrite He, Hc. apply adjust_eff_ok.
+    + destruct (Htr eq_refl) as (Hc & _ & He).
+      pose proof (adjust_or_skip_eff_ok (cfg_of w cs) (node_of w p) (track_update v (node_of w p) k d) H
+                    (track_update_eff v (node_of w p) k d)) as Ho.
+      unfold eff_ok in *. rewrite He, Hc.
+      rewrite <- (proj1 (proj2 (proj2 (adjust_or_skip_frame (cfg_of w cs) (node_of w p) (track_update v (node_of w p) k d)
+                    (if_delta (cfg_of w cs) (track_update v (node_of w p) k d)))))). exact Ho.
     + now rewrite (Hun eq_refl).
   - eapply same_track_eff_ok; [apply switchover_facts | exact H].
   - eapply same_track_eff_ok; [apply switchover_facts | exact H].
@@ -468,10 +487,11 @@ Lemma tif0_same_track v c n k d :
   same_track (fst (handle_if v c n k d)) (fst (fst (tstep v c n (TIf0 k d)))).
 Proof.
   intros Hf. destruct (if_facts v c n k d) as (_ & _ & Hun & Htr). cbn zeta in *.
-  cbn -[tracked track_update if_delta adjust_priority]. rewrite Hf.
+  cbn -[tracked track_update if_delta adjust_priority adjust_or_skip]. rewrite Hf.
   destruct (tracked c k) eqn:T; cbn [negb].
-  - destruct (Htr eq_refl) as (Hc & Hd & He). cbn -[track_update if_delta adjust_priority].
-    unfold same_track. rewrite Hc, Hd, He. cbn. auto.
+  - destruct (Htr eq_refl) as (Hc & Hd & He). cbn [orb]. cbn -[track_update if_delta adjust_priority adjust_or_skip].
+    destruct (adjust_or_skip_frame c n (track_update v n k d) (if_delta c (track_update v n k d))) as (_ & _ & F3 & F4).
+    unfold same_track. rewrite Hc, Hd, He, F3, F4. auto.
   - rewrite (Hun eq_refl). cbn. unfold same_track; auto.
 Qed.
 
@@ -522,7 +542,7 @@ Proof.
     apply andb_prop in I2. destruct I2 as [I2 I4]. apply andb_prop in I2. destruct I2 as [I2 I3].
     assert (Hnext : match snd (tstep v (cfg_of w' cs) (node_of w' (f_p s)) t) with
                     | Some t' => not_adj t' = true | None => True end).
-    { destruct t; try discriminate I3; cbn -[tracked track_update if_delta adjust_priority];
+    { destruct t; try discriminate I3; cbn -[tracked track_update if_delta adjust_priority adjust_or_skip];
         try (destruct (peer_discovered _ _ _)); try (destruct (elect _ _ _)); try (destruct (hb_update _ _ _ _ _ _));
         try (destruct (peer_lost _) as [? [|? ?]]); try (destruct (tracker_promote _));
         unfold v; cbn; repeat match goal with |- context [if ?b then _ else _] => destruct b end; cbn; auto. }
